@@ -75,7 +75,10 @@ CHECKS = {
             "bounded run-time contract check (snapshot purity, creation model)",
             "DESIGN.md §6 C09"),
     "C10": ("exploration",
-            BOUNDED % "10" + "anchor conflicts: all pairs over the name pool {x, y} x 4 policies x merge policies, dump + strict reload (exhaustive small space).",
+            BOUNDED % "10" + "anchor conflicts: all pairs over the name pool {x, y} x 4 policies x merge policies, dump + strict reload (exhaustive small space); "
+            "anchored scalars with falsy values inside sequences; the policy taken from the command line or from the INI file's [defaults] (yaml-merge "
+            "in-process).  Deductive part (proved, 50 VCs): Merger._calc_unique_anchor (the rename loop ends with a name no document uses) and "
+            "MergerConfig.anchor_merge_mode (command line > [defaults] > stop).  The conflict resolution itself is bounded only.",
             "bounded run-time contract check, exhaustive over the small anchor space",
             "DESIGN.md §6 C05/C10/C11"),
     "C11": ("exploration",
@@ -109,11 +112,13 @@ CHECKS = {
             "DESIGN.md §6 C14"),
     "C15": ("other",
             "Mixed. PROVED (for all documents, paths and indexes, modulo the listed class invariants of parsed paths): the dispatcher, the KEY, INDEX/slice, "
-            "ANCHOR, SEARCH, match-all (3), traversal, keyword-search relay handlers, the required-match driver AND the optional-match / creation driver "
+            "ANCHOR, SEARCH, match-all (3), traversal, COLLECTOR, keyword-search relay handlers, the required-match driver AND the optional-match / creation driver "
             "_get_optional_nodes (heap writes modelled; list-padding loop invariant), node_is_aoh, YAMLPath.__add__, SearchKeywordTerms.parameters, "
-            "search_matches, typed_value raise nothing but YAMLPathException (K1 at every subscript/int()/in/ordering/attribute site).  BOUNDED only: "
-            "collectors, the seven keyword scans, the ruamel node builders (exception-type monitor over documents x generated paths, required and optional "
-            "mode, plus every string of length <= 4 over the syntax alphabet that the parser accepts).",
+            "has_child / name / parent, search_matches, typed_value raise nothing but YAMLPathException (K1 at every subscript/int()/in/ordering/attribute "
+            "site); on top of that the functional clauses listed under C01 / C02 / C12.  BOUNDED only: the three collector set operations, the four keyword "
+            "scans max / min / unique / distinct, the ruamel node builders (exception-type monitor over documents x generated paths, required and optional "
+            "mode, every string of length <= 4 over the syntax alphabet that the parser accepts, and paths that climb back with parent() and create a member "
+            "in a collection that is still being iterated).",
             "contract-based deductive verification of the evaluator handlers (pyvc, z3+cvc5) + bounded exception-type monitor for the functions outside the subset",
             "DESIGN.md §6 C15"),
     "C16": ("exploration",
